@@ -1,4 +1,4 @@
-import PySMT.Proofs.C07Sound
+import PySMT.Proofs.C07DagSound
 /-!
 # C07: `decls_before_use` — the script of a formula is accepted by the strict command interpreter `runStd`
 (every sort and symbol declared exactly once, before the `assert` that uses it)
@@ -160,20 +160,17 @@ theorem run_declareFuns (logic : String) (sorts : List (String × Nat)) (rest : 
 theorem mem_eraseDups {α} [BEq α] [LawfulBEq α] (l : List α) (x : α) : x ∈ l.eraseDups ↔ x ∈ l := by
   simp
 
-/-- **The script of a formula is well-formed**: `runStd` — the strict interpreter that rejects any use before
-declaration and any re-declaration — accepts the command list of `smtlibscript_from_formula(f)` (tree printing of the
-assertion); the declarations build exactly the environment `scriptEnv` (every declared sort of `f` and every free symbol
-of `f`, each once) and the only live assertion is `f` (array values as store chains).
-
-`_partial`: `ScriptOK` restricts to plain (non-parametric) declared sorts and excludes the known findings, as `read_toSexp`
-does; the DAG form of the assertion is covered by `printDag`'s correspondence and search only. -/
-theorem decls_before_use_partial (logic : String) (t : Term) (h : ScriptOK logic t = true) :
-    ∃ st, runStd (scriptOfFormula logic false t) = .ok st ∧ st.env = scriptEnv logic t ∧ st.live = [unfoldAV t] ∧
-      (∀ s ∈ t.fv, s ∈ st.env.funs) := by
+/-- the commands of `scriptOfFormula` with an arbitrary assertion text `a`: accepted when `a` is read as a Bool term in
+the environment the declarations build -/
+theorem script_accepted (logic : String) (t : Term) (h : ScriptOK logic t = true) (a : Sexp) (u : Term)
+    (hrd : readStdTy (scriptEnv logic t) [] a = .ok (u, .bool)) :
+    ∃ st, runStd ([Sexp.list [.atom "set-logic", atomOfText logic]] ++ (sortDecls t).map declareSort
+        ++ t.fv.eraseDups.map declareFun ++ [.list [.atom "assert", a], .list [.atom "check-sat"]]) = .ok st ∧
+      st.env = scriptEnv logic t ∧ st.live = [u] ∧ (∀ s ∈ t.fv, s ∈ st.env.funs) := by
   simp only [ScriptOK, Bool.and_eq_true, Bool.not_eq_true', beq_iff_eq] at h
   obtain ⟨⟨⟨⟨⟨⟨⟨hls, hlr⟩, hsd⟩, hsf⟩, hfd⟩, hff⟩, hbool⟩, hP⟩ := h
   rw [List.all_eq_true] at hsf hff
-  simp only [runStd, scriptOfFormula, List.singleton_append, List.cons_append, List.nil_append, runStdFrom,
+  simp only [runStd, List.singleton_append, List.cons_append, List.nil_append, runStdFrom,
     step_setLogic logic hls hlr, Bool.false_eq_true, if_false, List.append_assoc, Nat.zero_add]
   rw [run_declareSorts logic _ (sortDecls t) [] 1 (fun d hd => by
         have := hsf d hd
@@ -188,18 +185,14 @@ theorem decls_before_use_partial (logic : String) (t : Term) (h : ScriptOK logic
         · intro ty hty
           rw [← this.2 ty hty]; exact SortOK_congr (env1 := { logic := logic, sorts := (sortDecls t).reverse, funs := [] }) (env2 := scriptEnv logic t) rfl _) hfd]
   simp only [List.append_nil]
-  have henv : (mkSt logic (sortDecls t).reverse t.fv.eraseDups.reverse).env = scriptEnv logic t := rfl
-  obtain ⟨τ, hty, hrd⟩ := read_toSexp_sort (scriptEnv logic t) t hP
-  have hτ : τ = .bool := by rw [hbool] at hty; exact (Option.some.inj hty).symm
-  subst hτ
-  have hassert : stepStd (mkSt logic (sortDecls t).reverse t.fv.eraseDups.reverse) (.list [.atom "assert", toSexp t])
-      = .ok { mkSt logic (sortDecls t).reverse t.fv.eraseDups.reverse with asserts := [[unfoldAV t]] } := by
+  have hassert : stepStd (mkSt logic (sortDecls t).reverse t.fv.eraseDups.reverse) (.list [.atom "assert", a])
+      = .ok { mkSt logic (sortDecls t).reverse t.fv.eraseDups.reverse with asserts := [[u]] } := by
     simp only [stepStd, show ("assert" == "set-logic") = false by decide, show ("assert" == "declare-sort") = false by decide,
       show ("assert" == "declare-fun") = false by decide, show ("assert" == "declare-const") = false by decide,
       show ("assert" == "define-fun") = false by decide, show ("assert" == "define-sort") = false by decide,
       beq_self_eq_true, if_true, Bool.false_eq_true, if_false, stepAssert, mkSt]
-    have hrd' : readStdTy { logic := logic, sorts := (sortDecls t).reverse, funs := t.fv.eraseDups.reverse } [] (toSexp t)
-        = .ok (unfoldAV t, .bool) := hrd
+    have hrd' : readStdTy { logic := logic, sorts := (sortDecls t).reverse, funs := t.fv.eraseDups.reverse } [] a
+        = .ok (u, .bool) := hrd
     simp only [hrd', beq_self_eq_true, if_true]
   have hcheck : ∀ st : StdState, stepStd st (.list [.atom "check-sat"]) = .ok st := by
     intro st
@@ -214,5 +207,35 @@ theorem decls_before_use_partial (logic : String) (t : Term) (h : ScriptOK logic
   · simp [StdState.live]
   · intro s hs
     simp [mkSt, hs]
+
+theorem scriptOK_parts {logic : String} {t : Term} (h : ScriptOK logic t = true) :
+    t.typeOf = some .bool ∧ Printable (scriptEnv logic t) [] t = true := by
+  simp only [ScriptOK, Bool.and_eq_true, beq_iff_eq] at h
+  exact ⟨h.1.2, h.2⟩
+
+/-- **The script of a formula is well-formed** (tree form of the assertion): `runStd` — the strict interpreter that rejects
+any use before declaration and any re-declaration — accepts the command list of `smtlibscript_from_formula(f)`; the
+declarations build exactly the environment `scriptEnv` (every declared sort of `f` and every free symbol of `f`, each once)
+and the only live assertion is `f` (array values as store chains).
+
+`_partial`: `ScriptOK` restricts to plain (non-parametric) declared sorts and excludes the known findings. -/
+theorem decls_before_use_partial (logic : String) (t : Term) (h : ScriptOK logic t = true) :
+    ∃ st, runStd (scriptOfFormula logic false t) = .ok st ∧ st.env = scriptEnv logic t ∧ st.live = [unfoldAV t] ∧
+      (∀ s ∈ t.fv, s ∈ st.env.funs) := by
+  obtain ⟨hbool, hP⟩ := scriptOK_parts h
+  obtain ⟨τ, hty, hrd⟩ := read_toSexp_sort (scriptEnv logic t) t hP
+  have hτ : τ = .bool := by rw [hbool] at hty; exact (Option.some.inj hty).symm
+  subst hτ
+  exact script_accepted logic t h (toSexp t) (unfoldAV t) hrd
+
+/-- … and the same for the DAG form of the assertion (`serialize(daggify=True)`, the default), for quantifier-free `f` -/
+theorem decls_before_use_dag_partial (logic : String) (t : Term) (h : ScriptOK logic t = true) (hq : noQuant t = true) :
+    ∃ st, runStd (scriptOfFormula logic true t) = .ok st ∧ st.env = scriptEnv logic t ∧ st.live = [unfoldAVw false t] ∧
+      (∀ s ∈ t.fv, s ∈ st.env.funs) := by
+  obtain ⟨hbool, hP⟩ := scriptOK_parts h
+  have hrd := readStd_toSexpDag (scriptEnv logic t) t (dagOK_of_printable' _ t hP hq)
+  have hτ : tyD t = .bool := by simp [tyD, hbool]
+  rw [hτ] at hrd
+  exact script_accepted logic t h (toSexpDag t) (unfoldAVw false t) hrd
 
 end PySMT.Printer
